@@ -183,10 +183,14 @@ def methStr (s : IS) (name names : String) : String :=
   if !s.set then "nil" else
   String.intercalate "," ((list? names).map (fun n => if n = name then s!"{n}:{behIface s}" else s!"{n}:unimpl"))
 
+/-- the parameter tokens a matching condition list has for the probe's call: a variadic call passes ONE element (`[]int{7}`) -/
+def hitIns (ins : List String) (var : String) : List String :=
+  if var = "1" then ins.dropLast ++ ["int"] else ins
+
 def handleSeq (toks : List String) : Option String :=
   match toks with
   | "c13" :: "seqf" :: tgt :: ins :: outs :: var :: pre :: st =>
-    match tgtId tgt, sig? ins outs var, steps? (list? ins) st with
+    match tgtId tgt, sig? ins outs var, steps? (hitIns (list? ins) var) st with
     | some t, some s, some steps =>
       let g0 := if pre = "1" then preState t else G.init
       let b0 : Beh := if pre = "1" then .cb else .orig
@@ -195,7 +199,7 @@ def handleSeq (toks : List String) : Option String :=
       some s!"{resStr r} step={i} before={behName (behOf b0 a)} diff={diffStr a.g b.g t none acc} beh={behName (behOf b0 b)} reg={regName b.g t}"
     | _, _, _ => some "bad-op"
   | "c13" :: "seqm" :: _name :: ins :: outs :: var :: st =>
-    match sig? ins outs var, steps? ((list? ins).drop 1) st with
+    match sig? ins outs var, steps? (hitIns ((list? ins).drop 1) var) st with
     | some s, some steps =>
       let (a, b, r, i) := runSeq { id := 0, sig := s } true 901 ⟨G.init, none, .none⟩ steps 0
       let acc := match r with | .ok _ => true | .error _ => false
@@ -209,7 +213,7 @@ def handleSeq (toks : List String) : Option String :=
       some s!"{resStr r} step={i} before={behIface a} beh={behIface b} var={if b.set then "set" else "nil"} meth={methStr b name names}"
     | _, _, _ => some "bad-op"
   | "c13" :: "rtf" :: tgt :: ins :: outs :: var :: pre :: st =>
-    match tgtId tgt, sig? ins outs var, steps? (list? ins) st with
+    match tgtId tgt, sig? ins outs var, steps? (hitIns (list? ins) var) st with
     | some t, some s, some steps =>
       let g0 := if pre = "1" then preState t else G.init
       let b0 : Beh := if pre = "1" then .cb else .orig
@@ -219,7 +223,7 @@ def handleSeq (toks : List String) : Option String :=
       some s!"{resStr r} trail={trailStr rs} before={behName (behOf b0 a)} diff={diffStr a.g b.g t none acc} beh={behName (behOf b0 b)} reg={regName b.g t}"
     | _, _, _ => some "bad-op"
   | "c13" :: "rtm" :: _name :: ins :: outs :: var :: st =>
-    match sig? ins outs var, steps? ((list? ins).drop 1) st with
+    match sig? ins outs var, steps? (hitIns ((list? ins).drop 1) var) st with
     | some s, some steps =>
       let (a, b, rs) := runAll { id := 0, sig := s } true 901 ⟨G.init, none, .none⟩ steps 0
       let r := rs.getLast?.getD (pure ())
